@@ -85,7 +85,7 @@ def strategy_(draw, thorough):
             cols.append(next(it))
     nf["cols"] = cols
     return {"frame": fr0, "opts": opts, "partition_on": pn, "new": nf, "kind": kind,
-            "channel": draw(st.sampled_from(["append", "append", "append", "fresh_next_to", "overwrite"])),
+            "channel": draw(st.sampled_from(["append", "append", "append", "handle_append", "fresh_next_to", "overwrite"])),
             "colpos": draw(st.sampled_from(["first", "middle", "last"])), "rowpos": draw(st.sampled_from(["first_rg", "later_rg"])),
             "new_rgo": draw(st.sampled_from([None, 1, 2]))}
 
@@ -163,7 +163,9 @@ def prepare_op(case, df1, path, other):
         if scheme == "simple":
             raise NotApplicable("needs a multi-file dataset")
         other_pn = [c["name"] for c in vcols if c["kind"] in ("int", "bool")][:1]
-        if pn:
+        if pn and case["colpos"] == "last":
+            kw.pop("partition_on", None)          # no partitioning at all given for a partitioned dataset
+        elif pn:
             kw["partition_on"] = pn[:-1] if len(pn) > 1 else (other_pn or ["__nope__"])
         else:
             if not other_pn:
@@ -205,6 +207,14 @@ def prepare_op(case, df1, path, other):
         kwo = {k: v for k, v in kw.items() if k in ("row_group_offsets", "compression")}
         return (lambda fs: fastparquet.write(path, df, append="overwrite", file_scheme="hive", partition_on=pn,
                                              open_with=fs.open_with, mkdirs=fs.mkdirs, **kwo)), "overwrite"
+    if channel == "handle_append":
+        # the refused batch goes through a handle the caller keeps; afterwards the handle must still be good for a valid append
+        if kind not in ("surrogate_text", "bytes_in_text", "text_in_int", "unknown_codec_col", "extra_column", "missing_column"):
+            raise NotApplicable("append through write() only")
+        pf = fastparquet.ParquetFile(path)
+        case["_handle"] = pf
+        return (lambda fs: pf.write_row_groups(df, row_group_offsets=kw.get("row_group_offsets"), compression=kw.get("compression"),
+                                               open_with=fs.open_with, mkdirs=fs.mkdirs)), "handle_append"
     return (lambda fs: fastparquet.write(path, df, append=True, open_with=fs.open_with, mkdirs=fs.mkdirs, **kw)), "append"
 
 
@@ -259,6 +269,24 @@ def run_case(case):
             r = dsinv.agreement(path, unreferenced_is_violation=False)
             if r:
                 return viol("agreement|%s|%s" % (how, r[0]), r[1], labels=labels)
+        if how == "handle_append":
+            # the handle that refused the batch takes a valid one (the base frame again)
+            pf = case.pop("_handle")
+            good = df0.dropna(subset=pn) if pn else df0
+            try:
+                pf.write_row_groups(df0)
+            except Exception as e:
+                return discard("valid append after the refusal raised:" + exc_sig(e), labels)
+            try:
+                after2 = fastparquet.ParquetFile(path).to_pandas()
+            except Exception as e:
+                return viol("dataset_unreadable|after_valid_append_through_the_refusing_handle|%s" % scheme,
+                            "%s raised %r; a valid append through the same handle then left the dataset unreadable: %s"
+                            % (case["kind"], raised, exc_detail(e)), labels=labels)
+            if len(after2) != len(before) + len(good):
+                return viol("rowcount|after_valid_append_through_the_refusing_handle|%s" % scheme,
+                            "rows %d, expected %d + %d" % (len(after2), len(before), len(good)), labels=labels)
+            labels.append("handle_reused_after_refusal")
         labels.append("raised:" + type(raised).__name__)
         labels.append("writes_before_exception:%s" % ("0" if not writes else "1-9" if writes < 10 else ">=10"))
     return ok(writes > 0, labels)
